@@ -26,11 +26,14 @@
 //	                          absent | true | false | envtrue | envfalse (a ${env:...} placeholder resolving to true/false);
 //	                          the YAML file goes through the REAL CLI config reader (cli.readConfig via the verif hook, in a
 //	                          subprocess); observed: the DiscardOverflow of every decoded pool
-//	ph <inst> <behind> <ordinary> <episodes>
+//	ph <inst> <behind> <ordinary> <episodes> [<queue> <stall>]
 //	                          the REAL engine with the REAL phout aggregator (afero mem fs) and a gun that reports samples
 //	                          obtained from netsample.Acquire; <inst> instances, <episodes> overload episodes: <inst> tokens whose
 //	                          shots take 2.6 s, <behind> tokens 100..300 ms behind them (picked up >= 2.3 s late), then
-//	                          <ordinary> on-time tokens 10 ms apart; every line of the phout file is judged
+//	                          <ordinary> on-time tokens 10 ms apart; every line of the phout file is judged.
+//	                          <queue> = phout's sample-queue-size (0: the default); <stall> = 1: the results file is slow --
+//	                          every write to it issued before t0+2.9 s returns at t0+2.9 s (the burst of discards of the
+//	                          first episode meets a writer that is stuck in its flush)
 //
 //	pool <discard 0|1> <perinst 0|1> <start,start,...> <m:off,off,...|p:segs> <durs/durs/...|->
 //	                          the REAL engine, ONE POOL with as many instances as there are <start>s (ms; a mock startup
@@ -39,6 +42,13 @@
 //	                          in ms from its first Next()) or a REAL finite composite profile (p: segments as in prof);
 //	                          the j-th Shoot of the k-th instance sleeps durs[k][j] ms (0 when not given).  Every Next(),
 //	                          Shoot and Report is attributed to its instance (the goroutine instance.Run runs on).
+//
+//	comp <n> <segs> <offs>    the REAL composite schedule over REAL finite segments (segs/offs as in prof) shared by <n> goroutines,
+//	                          each with a REAL coreutil.Waiter of its own, looping on Wait (a request is "fired" when Wait returns).
+//	                          Every nested segment is wrapped so that a caller that is told "finished" is held (at most 100 ms)
+//	                          until all <n> callers hold such an answer: concurrent callers meet the segment switch together.
+//	                          Judged against the CONFIGURED profile with no knowledge of who took which token: at no instant
+//	                          have more requests been fired than tokens of the profile were due.
 //
 // Observation: one field per token, only booleans / inequalities, never raw times:
 //
@@ -56,6 +66,8 @@
 //	      reported; grouped by instance for own schedules, in hand-out order for the shared one), then R=<reports that are
 //	      777/'discarded'> X=<other reports + events outside any token> S=<schedules built>
 //	      E=<discard_overflow off, or engine.Run returned within last start + profile length + 2 s + the longest response (+ margin)>
+//	comp: one bit per fired request in order of firing: at least k+1 tokens of the configured profile are due when the k-th (from 0)
+//	      request is fired (profile start = an instant not after the first Next()); then c=<lt|eq|gt> (requests vs tokens)
 //	eng: <F|D><not_early><late2s><sample_ok>            (F fired / D reported as discarded; instant of Shoot entry or of
 //	                                                     the discard report against the token; D: net code 777 + tag)
 //
@@ -71,6 +83,7 @@ import (
 	"os/exec"
 	"path/filepath"
 	"runtime"
+	"sort"
 	"strconv"
 	"strings"
 	"sync"
@@ -695,9 +708,39 @@ func (g *phGun) Shoot(core.Ammo) {
 	g.aggr.Report(s)
 }
 
+// stallFs: a results file system that is slow for a while: a Write issued before [until] returns at [until].
+type stallFs struct {
+	afero.Fs
+	until time.Time
+}
+
+type stallFile struct {
+	afero.File
+	until time.Time
+}
+
+func (f stallFs) Create(name string) (afero.File, error) {
+	file, err := f.Fs.Create(name)
+	if err != nil {
+		return nil, err
+	}
+	return stallFile{File: file, until: f.until}, nil
+}
+
+func (f stallFile) Write(p []byte) (int, error) {
+	if d := time.Until(f.until); d > 0 {
+		time.Sleep(d)
+	}
+	return f.File.Write(p)
+}
+
 func runPh(fields []string) string {
 	at := func(i int) int64 { v, _ := strconv.ParseInt(fields[i], 10, 64); return v }
 	inst, behind, ordinary, episodes := at(0), at(1), at(2), at(3)
+	queue, stall := int64(0), false
+	if len(fields) == 6 {
+		queue, stall = at(4), at(5) == 1
+	}
 	var toks, slow []int64
 	base := int64(0)
 	for e := int64(0); e < episodes; e++ {
@@ -718,13 +761,20 @@ func runPh(fields []string) string {
 		fs := afero.NewMemMapFs()
 		pc := netsample.DefaultPhoutConfig()
 		pc.Destination = "phout.log"
-		ph, err := netsample.NewPhout(fs, pc)
+		if queue > 0 {
+			pc.SampleQueueSize = int(queue)
+		}
+		t0 := time.Now()
+		var resFs afero.Fs = fs
+		if stall {
+			resFs = stallFs{Fs: fs, until: t0.Add(2900 * time.Millisecond)}
+		}
+		ph, err := netsample.NewPhout(resFs, pc)
 		if err != nil {
 			return "phout-error"
 		}
 		sched := &offSchedule{offs: toks}
 		var shoots atomic.Int64
-		t0 := time.Now()
 		sched.Start(t0)
 		conf := engine.Config{Pools: []engine.InstancePoolConfig{{
 			Provider:        endlessProvider{},
@@ -1088,6 +1138,133 @@ func planPool(discard, perinst bool, starts, offs []int64, durs [][]int64, fixed
 	return minM, end, late
 }
 
+// ---- a composite profile shared by several waiters ----
+
+// finGate aligns concurrent callers at the moment a nested schedule tells them it is finished.
+type finGate struct {
+	mu      sync.Mutex
+	n       int
+	waiting int
+	ch      chan struct{}
+}
+
+func (g *finGate) arrive() {
+	g.mu.Lock()
+	if g.ch == nil {
+		g.ch = make(chan struct{})
+	}
+	g.waiting++
+	ch := g.ch
+	if g.waiting >= g.n {
+		close(g.ch)
+		g.ch, g.waiting = nil, 0
+		g.mu.Unlock()
+		return
+	}
+	g.mu.Unlock()
+	select {
+	case <-ch:
+	case <-time.After(100 * time.Millisecond):
+		g.mu.Lock()
+		if g.ch == ch {
+			g.waiting--
+		}
+		g.mu.Unlock()
+	}
+}
+
+type gatedSched struct {
+	core.Schedule
+	gate *finGate
+}
+
+func (s gatedSched) Next() (time.Time, bool) {
+	t, ok := s.Schedule.Next()
+	if !ok {
+		s.gate.arrive()
+	}
+	return t, ok
+}
+
+type firstNextRec struct {
+	core.Schedule
+	mu     sync.Mutex
+	t0     time.Time
+	before int64
+	seen   bool
+}
+
+func (s *firstNextRec) Next() (time.Time, bool) {
+	bf := time.Since(s.t0).Nanoseconds()
+	s.mu.Lock()
+	if !s.seen {
+		s.seen, s.before = true, bf
+	}
+	s.mu.Unlock()
+	return s.Schedule.Next()
+}
+
+func runComp(fields []string) string {
+	n64, _ := strconv.ParseInt(fields[0], 10, 64)
+	n := int(n64)
+	offs := parseUs(fields[2])
+	if n < 1 || n > 16 {
+		return "unknown-case"
+	}
+	for attempt := 0; attempt < maxAttempts; attempt++ {
+		before := disturbances.Load()
+		gate := &finGate{n: n}
+		var parts []core.Schedule
+		for _, sg := range strings.Split(fields[1], ";") {
+			parts = append(parts, gatedSched{Schedule: buildProfile(sg), gate: gate})
+		}
+		rs := &firstNextRec{Schedule: schedule.NewComposite(parts...), t0: time.Now()}
+		ctx, cancel := context.WithTimeout(context.Background(), 20*time.Second)
+		var mu sync.Mutex
+		var ats []int64
+		var wg sync.WaitGroup
+		for i := 0; i < n; i++ {
+			wg.Add(1)
+			go func() {
+				defer wg.Done()
+				w := coreutil.NewWaiter(rs)
+				for w.Wait(ctx) {
+					at := time.Since(rs.t0).Nanoseconds()
+					mu.Lock()
+					ats = append(ats, at)
+					mu.Unlock()
+				}
+			}()
+		}
+		wg.Wait()
+		cancel()
+		sort.Slice(ats, func(i, j int) bool { return ats[i] < ats[j] })
+		var bits strings.Builder
+		for k, at := range ats {
+			due := 0
+			for _, o := range offs {
+				if rs.before+o <= at {
+					due++
+				}
+			}
+			bits.WriteString(b(due >= k+1))
+		}
+		c := "eq"
+		if len(ats) < len(offs) {
+			c = "lt"
+		} else if len(ats) > len(offs) {
+			c = "gt"
+		}
+		if bits.Len() == 0 {
+			bits.WriteString("-")
+		}
+		if disturbances.Load() == before {
+			return bits.String() + " c=" + c
+		}
+	}
+	return "disturbed"
+}
+
 type oneSchedule struct {
 	t    time.Time
 	used bool
@@ -1175,8 +1352,12 @@ func runCase(c string, idx int) string {
 	case "near":
 		return runNear(f[1:])
 	case "ph":
-		if len(f) == 5 {
+		if len(f) == 5 || len(f) == 7 {
 			return runPh(f[1:])
+		}
+	case "comp":
+		if len(f) == 4 {
+			return runComp(f[1:])
 		}
 	case "pool":
 		if len(f) == 6 {
@@ -1324,6 +1505,13 @@ func gen(r *vh.Rand, tier string) []string {
 	for i := 0; i < nPh; i++ {
 		out = append(out, fmt.Sprintf("ph %d %d %d %d", r.Range(3, 6), r.Range(4, 10), r.Range(30, 80), 2))
 	}
+	// ... with a small (valid) sample queue and bursts of discards much larger than it; half of them meet a slow results file
+	for i := 0; i < nPh+nPh/2; i++ {
+		q := r.PickInt([]int{1, 2, 8, 64})
+		behind := r.Range(q+20, q+300)
+		stall := i%3 != 0
+		out = append(out, fmt.Sprintf("ph %d %d %d %d %d %s", r.Range(2, 6), behind, r.Range(45, 80), r.Range(1, 2), q, b(stall)))
+	}
 	// composite rps profiles: finite segments, pauses, an unlimited tail of short duration
 	nP := 14
 	if tier == "thorough" {
@@ -1415,6 +1603,51 @@ func gen(r *vh.Rand, tier string) []string {
 		if tail != "-" && made%3 == 0 {
 			out = append(out, "proftail "+line)
 		}
+		made++
+	}
+	// a composite profile shared by 2..4 waiters that meet the segment switches together
+	nComp := 12
+	if tier == "thorough" {
+		nComp = 120
+	}
+	type cseg struct {
+		ops, dur int64 // const: ops rps for dur ms (a whole number of tokens)
+	}
+	consts := []cseg{{10, 100}, {10, 200}, {10, 500}, {2, 500}, {2, 1000}, {4, 500}, {4, 250}, {5, 200}, {5, 400}, {5, 1000}}
+	for made := 0; made < nComp; {
+		n := r.Range(2, 4)
+		var segs []string
+		var offs []int64
+		start := int64(0)
+		for i, ns := 0, r.Range(2, 4); i < ns; i++ {
+			switch r.Intn(5) {
+			case 0:
+				k := r.Range(1, n)
+				segs = append(segs, fmt.Sprintf("once.%d", k))
+				for j := 0; j < k; j++ {
+					offs = append(offs, start)
+				}
+			case 1:
+				d := int64(r.PickInt([]int{100, 300})) * ms
+				segs = append(segs, fmt.Sprintf("pause.%d", d/ms))
+				start += d
+			default:
+				c := consts[r.Intn(len(consts))]
+				segs = append(segs, fmt.Sprintf("const.%d.%d", c.ops, c.dur))
+				for k := int64(0); k < c.ops*c.dur/1000; k++ {
+					offs = append(offs, start+k*(1000*ms/c.ops))
+				}
+				start += c.dur * ms
+			}
+		}
+		if len(offs) < 2 || len(offs) > 20 || start > 2500*ms {
+			continue
+		}
+		var offsUs []string
+		for _, o := range offs {
+			offsUs = append(offsUs, strconv.FormatInt(o/1000, 10))
+		}
+		out = append(out, fmt.Sprintf("comp %d %s %s", n, strings.Join(segs, ";"), strings.Join(offsUs, ",")))
 		made++
 	}
 	// whole pools: 1..4 instances started one after another, own schedules (rps-per-instance) or the shared one,
